@@ -36,7 +36,7 @@ package combinator
 //@ pure func resOK(ctx *parsley.Context, n parsley.Node, pos parsley.Pos) bool = n != nil ==> parsley.NodeOK(n) && parsley.ListOwn(n) && parsley.EndsWithin(n, pos, eof(ctx, pos))
 //@ pure func errOK(ctx *parsley.Context, e parsley.Error, pos parsley.Pos) bool = e != nil ==> pos <= e.Pos() && e.Pos() <= eof(ctx, pos) && e.Pos() <= parsley.GhostMaxFail
 //@ -- ghost state inside a running combinator: monotone marks moved on, floor and window are the combinator's own
-//@ pure func ghostIn(ctx *parsley.Context, lrc data.IntMap, pos parsley.Pos) bool = (old(parsley.GhostCurtailed) ==> parsley.GhostCurtailed) && parsley.GhostMaxFail >= old(parsley.GhostMaxFail) && parsley.GhostCalls > old(parsley.GhostCalls) && parsley.GhostFloorPos == pos && same(parsley.GhostFloorLrc, lrc) && parsley.GhostLo == pos && parsley.GhostHi == eof(ctx, pos) && parsley.GhostSeqMark == old(parsley.GhostSeqMark) && (forall a int :: !freshid(a) ==> parsley.GhostSpare(a) == old(parsley.GhostSpare(a)))
+//@ pure func ghostIn(ctx *parsley.Context, lrc data.IntMap, pos parsley.Pos) bool = (old(parsley.GhostCurtailed) ==> parsley.GhostCurtailed) && parsley.GhostMaxFail >= old(parsley.GhostMaxFail) && parsley.GhostCalls > old(parsley.GhostCalls) && parsley.GhostFloorPos == pos && same(parsley.GhostFloorLrc, lrc) && parsley.GhostLo == pos && parsley.GhostHi == eof(ctx, pos) && parsley.GhostSeqMark == old(parsley.GhostSeqMark) && (forall a int :: !freshid(a) ==> parsley.GhostSpare(a) == old(parsley.GhostSpare(a))) && parsley.ActiveKept() && parsley.ActiveOK(lrc, pos)
 
 //@ -- Choice: the first parser that returns a node wins (E5)
 //@ closure Choice$1(ctx *parsley.Context, lrc data.IntMap, pos parsley.Pos) (n parsley.Node, cp data.IntSet, err parsley.Error)
@@ -100,6 +100,9 @@ package combinator
 //@   ensures  [hit;C03] hit ==> ncalls() == 0 && same(n, st.Node) && same(cp, st.CurtailingParsers) && same(err, st.Error)
 //@   ensures  [curtailed;C01,C02] !hit && curtail ==> ncalls() == 0 && n == nil && err == nil && forall x int :: data.Member(data.ElemsOf(cp), x) == (x == parserIndex)
 //@   ensures  [miss;C01,C03] !hit && !curtail ==> ncalls() == 1 && callarg[*parsley.Context](1, 1) == ctx && callarg[parsley.Pos](1, 3) == pos && sameAlts(n, callres[parsley.Node](1, 0)) && same(cp, callres[data.IntSet](1, 1)) && same(err, callres[parsley.Error](1, 2))
+//@   assert_at call:Inc#1 [bound;C02] parsley.GhostActive(parserIndex, pos) + 1 <= ctx.Reader().Remaining(pos) + 2
+//@   ghost_at call:Inc#1 parsley.GhostActive(parserIndex, pos) = parsley.GhostActive(parserIndex, pos) + 1
+//@   ghost_at call:Parse#1 parsley.GhostActive(parserIndex, pos) = parsley.GhostActive(parserIndex, pos) - 1
 //@   ensures  [inc;C02] !hit && !curtail ==> data.MapOf(callarg[data.IntMap](1, 2))[parserIndex] == data.MapOf(lrc)[parserIndex] + 1 && forall k int :: k != parserIndex ==> data.MapOf(callarg[data.IntMap](1, 2))[k] == data.MapOf(lrc)[k]
 //@   ensures  [stored;C03,C01] !hit && !curtail ==> ctx.ResultCache()[parserIndex][pos] != nil && same(ctx.ResultCache()[parserIndex][pos].Node, n) && same(ctx.ResultCache()[parserIndex][pos].CurtailingParsers, cp) && same(ctx.ResultCache()[parserIndex][pos].Error, err)
 //@   ensures  [stored-ctx;C03,C01] !hit && !curtail ==> forall k int :: dom(data.MapOf(ctx.ResultCache()[parserIndex][pos].LeftRecCtx), k) == (dom(data.MapOf(lrc), k) && data.Member(data.ElemsOf(cp), k))
@@ -134,7 +137,7 @@ package combinator
 //@ pure func seqOK(s *sequence, ctx *parsley.Context) bool = s != nil && s.parserLookUp != nil && s.lenCheck != nil && s.resultHandler != nil && data.Inv(s.curtailingParsers) && (s.result != nil ==> parsley.NodeOK(s.result) && (parsley.ListArr(s.result) != 0 ==> parsley.GhostSpare(parsley.ListArr(s.result)) && parsley.ListArr(s.result) >= parsley.GhostSeqMark && allocatedid(parsley.ListArr(s.result))) && parsley.EndsWithin(s.result, parsley.GhostLo, parsley.GhostHi)) && (s.err != nil ==> parsley.GhostLo <= s.err.Pos() && s.err.Pos() <= parsley.GhostHi && s.err.Pos() <= parsley.GhostMaxFail) && (forall k int :: 0 <= k && k < len(s.nodes) ==> validSeqNode(s.nodes[k])) && (cap(s.nodes) == 0 || (array(s.nodes) >= parsley.GhostSeqMark && parsley.GhostSpare(array(s.nodes)))) && offset(s.nodes) == 0 && 0 <= len(s.nodes) && len(s.nodes) <= cap(s.nodes) && (array(s.nodes) == 0 ==> cap(s.nodes) == 0) && allocatedid(array(s.nodes)) && (cap(s.nodes) == 0 || s.result == nil || parsley.ListArr(s.result) != array(s.nodes))
 //@ -- the first index without a parser is an acceptable length (otherwise a run could end with neither result nor error)
 //@ pure func seqShape(s *sequence) bool = forall d int :: d >= 0 && lookupOf(s.parserLookUp, d) == nil && (d == 0 || lookupOf(s.parserLookUp, d-1) != nil) ==> lenOf(s.lenCheck, d)
-//@ pure func seqGhost(ctx *parsley.Context) bool = (old(parsley.GhostCurtailed) ==> parsley.GhostCurtailed) && parsley.GhostMaxFail >= old(parsley.GhostMaxFail) && parsley.GhostCalls >= old(parsley.GhostCalls) && parsley.GhostFloorPos == old(parsley.GhostFloorPos) && same(parsley.GhostFloorLrc, old(parsley.GhostFloorLrc)) && parsley.GhostLo == old(parsley.GhostLo) && parsley.GhostHi == old(parsley.GhostHi) && parsley.GhostSeqMark == old(parsley.GhostSeqMark) && (forall a int :: a < parsley.GhostSeqMark ==> parsley.GhostSpare(a) == old(parsley.GhostSpare(a))) && parsley.GhostBest >= old(parsley.GhostBest)
+//@ pure func seqGhost(ctx *parsley.Context) bool = (old(parsley.GhostCurtailed) ==> parsley.GhostCurtailed) && parsley.GhostMaxFail >= old(parsley.GhostMaxFail) && parsley.GhostCalls >= old(parsley.GhostCalls) && parsley.GhostFloorPos == old(parsley.GhostFloorPos) && same(parsley.GhostFloorLrc, old(parsley.GhostFloorLrc)) && parsley.GhostLo == old(parsley.GhostLo) && parsley.GhostHi == old(parsley.GhostHi) && parsley.GhostSeqMark == old(parsley.GhostSeqMark) && (forall a int :: a < parsley.GhostSeqMark ==> parsley.GhostSpare(a) == old(parsley.GhostSpare(a))) && parsley.GhostBest >= old(parsley.GhostBest) && parsley.ActiveKept()
 //@ -- the sequence keeps the furthest error its elements have returned (C06)
 //@ pure func seqErrOK(s *sequence) bool = (s.err == nil ==> parsley.GhostBest == -1) && (s.err != nil ==> s.err.Pos() >= parsley.GhostBest)
 
@@ -145,6 +148,7 @@ package combinator
 //@   flag slow
 //@   requires seqOK(s, ctx) && seqShape(s) && 0 <= depth && depth <= len(s.nodes) && (depth == 0 || lookupOf(s.parserLookUp, depth-1) != nil)
 //@   requires parsley.WfCtx(ctx) && parsley.WfCache(ctx) && parsley.InInput(ctx.Reader(), pos) && parsley.GhostLo <= pos && parsley.GhostHi == eof(ctx, pos) && parsley.GhostSeqMark <= allocmark()
+//@   requires [active;C02] parsley.ActiveOK(lrc, pos)
 //@   requires [floor;C02] pos > parsley.GhostFloorPos || (pos == parsley.GhostFloorPos && forall k int :: data.MapOf(lrc)[k] >= data.MapOf(parsley.GhostFloorLrc)[k])
 //@   ensures  seqOK(s, ctx) && len(s.nodes) >= old(len(s.nodes)) && parsley.WfCtx(ctx) && parsley.WfCache(ctx) && seqGhost(ctx)
 //@   ensures  [fixed] same(s.parserLookUp, old(s.parserLookUp)) && same(s.lenCheck, old(s.lenCheck)) && same(s.resultHandler, old(s.resultHandler)) && s.token == old(s.token) && same(s.interpreter, old(s.interpreter))
@@ -167,6 +171,7 @@ package combinator
 //@   invariant [hint-alts] forall j int :: 0 <= j && j < len(rest) ==> same(parsley.Alt(parsley.Node(rest), j), rest[j])
 //@   invariant seqOK(s, ctx) && len(s.nodes) >= old(len(s.nodes)) && depth <= len(s.nodes) && parsley.WfCtx(ctx) && parsley.WfCache(ctx) && seqGhost(ctx)
 //@   invariant same(s.parserLookUp, old(s.parserLookUp)) && same(s.lenCheck, old(s.lenCheck)) && same(s.resultHandler, old(s.resultHandler)) && s.token == old(s.token) && same(s.interpreter, old(s.interpreter))
+//@   invariant [active;C02] parsley.ActiveOK(lrc, pos)
 //@   invariant [L;C06] seqErrOK(s)
 //@   invariant [rest] forall j int :: k <= j && j < len(rest) ==> validSeqNode(rest[j]) && pos <= rest[j].ReaderPos()
 //@   invariant [alt-frame] seqFrame(s)
@@ -181,6 +186,7 @@ package combinator
 //@   requires seqOK(s, ctx) && seqShape(s) && 0 <= depth && depth <= len(s.nodes) && lookupOf(s.parserLookUp, depth) != nil && i >= 0
 //@   requires validSeqNode(node) && pos <= node.ReaderPos()
 //@   requires parsley.WfCtx(ctx) && parsley.WfCache(ctx) && parsley.InInput(ctx.Reader(), pos) && parsley.GhostLo <= pos && parsley.GhostHi == eof(ctx, pos) && parsley.GhostSeqMark <= allocmark()
+//@   requires [active;C02] parsley.ActiveOK(lrc, pos)
 //@   requires [floor;C02] pos > parsley.GhostFloorPos || (pos == parsley.GhostFloorPos && forall k int :: data.MapOf(lrc)[k] >= data.MapOf(parsley.GhostFloorLrc)[k])
 //@   ensures  seqOK(s, ctx) && len(s.nodes) >= old(len(s.nodes)) && parsley.WfCtx(ctx) && parsley.WfCache(ctx) && seqGhost(ctx)
 //@   ensures  [fixed] same(s.parserLookUp, old(s.parserLookUp)) && same(s.lenCheck, old(s.lenCheck)) && same(s.resultHandler, old(s.resultHandler)) && s.token == old(s.token) && same(s.interpreter, old(s.interpreter))
@@ -203,6 +209,7 @@ package combinator
 //@ func (s *sequence) Parse(ctx *parsley.Context, lrc data.IntMap, pos parsley.Pos) (n parsley.Node, cp data.IntSet, err parsley.Error)
 //@   requires seqOK(s, ctx) && seqShape(s) && s.result == nil && s.err == nil && len(s.nodes) == 0
 //@   requires parsley.WfCtx(ctx) && parsley.WfCache(ctx) && parsley.InInput(ctx.Reader(), pos) && parsley.GhostLo == pos && parsley.GhostHi == eof(ctx, pos) && parsley.GhostSeqMark <= allocmark()
+//@   requires [active;C02] parsley.ActiveOK(lrc, pos)
 //@   requires [floor;C02] pos > parsley.GhostFloorPos || (pos == parsley.GhostFloorPos && forall k int :: data.MapOf(lrc)[k] >= data.MapOf(parsley.GhostFloorLrc)[k])
 //@   ensures  parsley.WfCtx(ctx) && parsley.WfCache(ctx) && seqGhost(ctx)
 //@   ensures  [PC1;C04] n == nil && err == nil ==> parsley.GhostCurtailed
